@@ -480,8 +480,13 @@ def _handle_pth_file(path: Path) -> list[_SP]:
             editable_module = path.parent / f"{line[len('import') :].lstrip()}.py"
             with suppress(UnhandledEditableModuleError):
                 return _handle_editable_module(editable_module)
-        if line and not line.startswith("#") and os.path.exists(line):  # noqa: PTH110
-            directories.append(_SP(Path(line)))
+        if line and not line.startswith("#"):
+            # Like `site` does, an item that is not absolute is relative to the directory of the .pth file
+            # (before falling back to the current working directory).
+            if not os.path.isabs(line) and path.parent.joinpath(line).exists():  # noqa: PTH117
+                directories.append(_SP(path.parent / line))
+            elif os.path.exists(line):  # noqa: PTH110
+                directories.append(_SP(Path(line)))
     return directories
 
 
